@@ -1207,6 +1207,11 @@ static const uint8_t *unmarshal_one_fiber(
     if (status < 0 || status > JANET_STATUS_ALIVE) {
         janet_panic("invalid fiber status");
     }
+    /* Only a fiber that has finished has no stack frames left. Any other
+     * fiber is entered through its topmost frame when it is resumed. */
+    if (frame == 0 && status != JANET_STATUS_DEAD && status != JANET_STATUS_ERROR) {
+        janet_panic("fiber has no stack frames");
+    }
 
     /* Return data */
     *out = fiber;
